@@ -72,6 +72,34 @@ fn sig_vec_u16() {
     assert!(r.len() == 2 * len);
     if len > 0 { let i: usize = kani::any(); kani::assume(i < len); assert!(u16::from_ne_bytes([r[2 * i], r[2 * i + 1]]) == v[i]); }
 }
+// the same with a vector whose capacity exceeds its length (truncated from a longer one)
+#[kani::proof]
+#[kani::unwind(6)]
+fn sig_vec_u16_spare_capacity() {
+    let arr: [u16; N] = kani::any();
+    let len: usize = kani::any();
+    kani::assume(len <= N);
+    let mut v: Vec<u16> = arr.to_vec();
+    v.truncate(len);
+    let r = v.get_sig();
+    assert!(r.len() == 2 * len);
+    if len > 0 { let i: usize = kani::any(); kani::assume(i < len); assert!(u16::from_ne_bytes([r[2 * i], r[2 * i + 1]]) == v[i]); }
+}
+#[kani::proof]
+#[kani::unwind(6)]
+fn sig_vec_u32_spare_capacity() {
+    let arr: [u32; N] = kani::any();
+    let len: usize = kani::any();
+    kani::assume(len <= N);
+    let mut v: Vec<u32> = arr.to_vec();
+    v.truncate(len);
+    let r = v.get_sig();
+    assert!(r.len() == 4 * len);
+    if len > 0 {
+        let i: usize = kani::any(); kani::assume(i < len);
+        assert!(u32::from_ne_bytes([r[4 * i], r[4 * i + 1], r[4 * i + 2], r[4 * i + 3]]) == v[i]);
+    }
+}
 #[kani::proof]
 #[kani::unwind(6)]
 fn sig_vec_u32() {
